@@ -862,3 +862,768 @@ func c20Join(parts ...string) string {
 	}
 	return strings.Join(out, "; ")
 }
+
+// ---- anchors by role, across the helpers of Install --------------------------------------------------------------
+//
+// Second generalisation pass. The rules used to look for their anchor calls (source parser, lookup of the existing
+// plugin, version comparison) in the body of Install only, and recognised the lookup by the exported name Get. Code
+// that keeps the property moves these calls around freely: the source resolution becomes a helper that returns a
+// struct, the exported Get becomes a validating wrapper over an unexported worker that Install calls directly. The
+// anchors are therefore searched in the call tree below Install (c20FindCalls) and recognised by role; what a helper
+// in between contributes to the decision table is computed by interpreting the helper itself (c20Frames).
+
+// c20Found: a call found below Install, with the chain of calls that leads from Install to the function holding it.
+type c20Found struct {
+	call *ssa.Call
+	via  []*ssa.Call
+}
+
+// c20FindCalls: the calls below root (static module callees, at most three frames deep) that satisfy match. The body
+// of a matching call's callee is not searched.
+func c20FindCalls(w *World, root *ssa.Function, match func(*ssa.Call) bool) []c20Found {
+	var out []c20Found
+	seen := map[*ssa.Function]bool{}
+	var rec func(fn *ssa.Function, via []*ssa.Call)
+	rec = func(fn *ssa.Function, via []*ssa.Call) {
+		if seen[fn] || len(via) > 3 {
+			return
+		}
+		seen[fn] = true
+		for _, ci := range allCalls(fn) {
+			cc, ok := ci.(*ssa.Call)
+			if !ok {
+				continue
+			}
+			if match(cc) {
+				out = append(out, c20Found{cc, append([]*ssa.Call(nil), via...)})
+				continue
+			}
+			if g := staticCallee(cc); g != nil && g.Blocks != nil && w.IsProductFn(g) {
+				rec(g, append(append([]*ssa.Call(nil), via...), cc))
+			}
+		}
+	}
+	rec(root, nil)
+	return out
+}
+
+// c20InFrameOfRoot: the value v of the innermost frame of the chain, expressed in the frame of the root function:
+// a parameter of a helper is what the call of the helper passes for it. nil: v is computed inside a helper.
+func c20InFrameOfRoot(v ssa.Value, via []*ssa.Call) ssa.Value {
+	for i := len(via) - 1; i >= 0; i-- {
+		p, ok := v.(*ssa.Parameter)
+		if !ok {
+			return nil
+		}
+		H := staticCallee(via[i])
+		idx := -1
+		for j, q := range H.Params {
+			if q == p {
+				idx = j
+			}
+		}
+		if idx < 0 || idx >= len(via[i].Call.Args) {
+			return nil
+		}
+		v = via[i].Call.Args[idx]
+	}
+	return v
+}
+
+// c20IsSourceParser: the role of parsePluginFromDir — a module function with results (file, name, error) whose tree
+// walks a directory; the innermost function of that kind (a wrapper with the same result list around it is a helper).
+func c20IsSourceParser(w *World, g *ssa.Function) bool {
+	shape := func(f *ssa.Function) ([]*ssa.Function, bool) {
+		if f == nil || f.Blocks == nil || !w.IsProductFn(f) {
+			return nil, false
+		}
+		r := f.Signature.Results()
+		if r.Len() != 3 || !isErrorType(r.At(2).Type()) {
+			return nil, false
+		}
+		tree := c20Tree(w, f)
+		for _, x := range tree {
+			if len(findCalls(x, "path/filepath.WalkDir")) > 0 {
+				return tree, true
+			}
+		}
+		return nil, false
+	}
+	tree, ok := shape(g)
+	if !ok {
+		return false
+	}
+	for _, f := range tree {
+		if f != g {
+			if _, inner := shape(f); inner {
+				return false
+			}
+		}
+	}
+	return true
+}
+
+// c20FindParser: the call of the source parser below Install that is handed a field of the install options (the
+// source path), directly or through the parameters of the helpers in between.
+func c20FindParser(w *World, INST *ssa.Function, optsP string) (found []c20Found) {
+	for _, f := range c20FindCalls(w, INST, func(cc *ssa.Call) bool { return c20IsSourceParser(w, staticCallee(cc)) }) {
+		for _, a := range f.call.Call.Args {
+			if v := c20InFrameOfRoot(a, f.via); v != nil && strings.HasPrefix(desc(v), optsP+".") {
+				found = append(found, f)
+				break
+			}
+		}
+	}
+	return found
+}
+
+// c20Lookup: the call of Install that looks the existing plugin up, and the name it is looked up under.
+type c20Lookup struct {
+	call *ssa.Call
+	name ssa.Value   // in the frame of the function that holds the call
+	recv ssa.Value   // the manager, in that frame
+	via  []*ssa.Call // from Install to that function
+}
+
+// c20FindLookup. The lookup of the existing plugin is the exported (*CLIManager).Get — or a function W that Get
+// itself delegates to, called by Install under the conditions under which Get calls it:
+//
+//	Get(ctx, name) = { checks on name; return W(m, ctx, name) }        Install: { …; W(m, ctx, X) }
+//
+// Accepted only if (1) Get has exactly one call of W and every success exit of Get returns that call's first result;
+// (2) the arguments Install passes are the arguments Get passes, with Install's receiver in the place of Get's receiver
+// and X in the place of Get's name; (3) every fact that must hold in Get before it calls W (its checks on the name), rewritten for the
+// arguments Install passes, must also hold in Install before its call of W. Then Install's call of W runs in a state
+// in which Get(m, ctx, X) would have reached the same call with the same arguments and handed its result on: the
+// answer Install works with is the answer of Get for X.
+func c20FindLookup(w *World, INST *ssa.Function) (*c20Lookup, string) {
+	GET := w.Method("plugin", "CLIManager", "Get")
+	if GET == nil {
+		return nil, "(*CLIManager).Get not found"
+	}
+	strParam := func(f *ssa.Function) int {
+		idx := -1
+		for i, p := range f.Params {
+			if b, ok := p.Type().Underlying().(*types.Basic); ok && b.Kind() == types.String {
+				if idx >= 0 {
+					return -1
+				}
+				idx = i
+			}
+		}
+		return idx
+	}
+	nameIdx := strParam(GET)
+	if nameIdx < 0 {
+		return nil, "Get has no single string parameter"
+	}
+	why := "no call of Get"
+	var out *c20Lookup
+	for _, ci := range allCalls(INST) {
+		cc, ok := ci.(*ssa.Call)
+		if !ok {
+			continue
+		}
+		W := staticCallee(cc)
+		if W == nil {
+			continue
+		}
+		if W == GET {
+			continue // below
+		}
+		if W.Blocks == nil || !w.IsProductFn(W) || !types.Identical(W.Signature.Results(), GET.Signature.Results()) {
+			continue
+		}
+		// (1) Get delegates to W
+		var dc *ssa.Call
+		n := 0
+		for _, c2 := range allCalls(GET) {
+			if x, ok := c2.(*ssa.Call); ok && staticCallee(x) == W {
+				dc = x
+				n++
+			}
+		}
+		if n != 1 || len(dc.Call.Args) != len(cc.Call.Args) {
+			continue
+		}
+		s := w.Summarize(GET, Mode{Kind: mErr})
+		deleg := s != nil && s.Complete && len(s.Exits) > 0
+		if deleg {
+			for _, e := range s.Exits {
+				ex, ok := e.Ret.Results[0].(*ssa.Extract)
+				if !ok || ex.Tuple != ssa.Value(dc) || ex.Index != 0 {
+					deleg = false
+				}
+			}
+		}
+		if !deleg {
+			why = "Get does not hand on the result of " + fnName(W)
+			continue
+		}
+		// (2) the arguments: what Get passes, written in terms of Get's parameters, is what Install passes, with Install's
+		// receiver for Get's receiver, the looked-up name for Get's name and Install's own parameter for any other
+		// parameter of Get (the context)
+		var names, descs []string
+		var name ssa.Value
+		for i, a := range dc.Call.Args {
+			if a == ssa.Value(GET.Params[nameIdx]) {
+				name = cc.Call.Args[i]
+			}
+		}
+		okArgs := name != nil
+		for j, p := range GET.Params {
+			switch {
+			case !okArgs:
+			case j == 0:
+				names, descs = append(names, p.Name()), append(descs, "param:"+INST.Params[0].Name())
+			case j == nameIdx:
+				names, descs = append(names, p.Name()), append(descs, desc(name))
+			default:
+				for _, q := range INST.Params[1:] {
+					if types.Identical(q.Type(), p.Type()) {
+						names, descs = append(names, p.Name()), append(descs, "param:"+q.Name())
+						break
+					}
+				}
+			}
+		}
+		for i, a := range dc.Call.Args {
+			if okArgs && substParams(desc(a), names, descs) != desc(cc.Call.Args[i]) {
+				okArgs = false
+			}
+		}
+		if !okArgs {
+			why = "Install calls " + fnName(W) + " with other arguments than Get does"
+			continue
+		}
+		// (3) the preconditions
+		pre := w.Info(GET).GuardsOf(dc)
+		have := w.Info(INST).GuardsOf(cc)
+		missing := ""
+		for _, l := range labelList(pre) {
+			if l2 := substParams(l, names, descs); !labelHas(have, l2) {
+				if tw, ok := labelTwin(l2); !ok || !labelHas(have, tw) {
+					missing = l2
+					break
+				}
+			}
+		}
+		if pre == nil || have == nil || missing != "" {
+			why = "Install calls " + fnName(W) + " without a check Get makes before it calls it: " + trunc(missing, 160)
+			continue
+		}
+		out = &c20Lookup{call: cc, name: name, recv: INST.Params[0]}
+	}
+	// Get itself, in Install or in a helper of Install
+	if found := c20FindCalls(w, INST, func(cc *ssa.Call) bool { return staticCallee(cc) == GET }); len(found) > 0 {
+		if len(found) > 1 || out != nil {
+			return nil, "more than one lookup of an existing plugin below Install"
+		}
+		cc := found[0].call
+		out = &c20Lookup{call: cc, name: cc.Call.Args[nameIdx], recv: cc.Call.Args[0], via: found[0].via}
+	}
+	if out == nil {
+		return nil, why
+	}
+	return out, ""
+}
+
+// ---- the decision table across helper frames --------------------------------------------------------------------
+//
+// The decision table of Install is computed by abstract interpretation of Install under every scenario. When a
+// scenario input (the parser's error, the lookup's error, …) is consumed by a helper of Install instead of by Install
+// itself, the helper is interpreted under the same scenario first: every abstract path through it yields an outcome —
+// the abstract value of each result (an error is nil or non-nil, a bool is true or false; for a struct result the value
+// of each bool field) — and Install is interpreted once per outcome, with the helper's results bound to it. A result
+// the interpreter cannot decide stands for every value (an undecided error: one outcome with nil and one with
+// non-nil), so the set of behaviours considered only grows: whatever the table then says about "an effect is reachable
+// only if …" holds for the real code. Nothing is assumed about a helper by its name or shape.
+
+// c20Res: one abstract outcome of a helper call.
+type c20Res struct {
+	vals   []AVal         // per result
+	fields []map[int]AVal // per struct-typed result: its bool fields (a missing entry: unknown)
+}
+
+func (r *c20Res) key() string {
+	var sb strings.Builder
+	for i, v := range r.vals {
+		fmt.Fprintf(&sb, "%s", v)
+		if r.fields[i] != nil {
+			var ks []int
+			for k := range r.fields[i] {
+				ks = append(ks, k)
+			}
+			sort.Ints(ks)
+			for _, k := range ks {
+				fmt.Fprintf(&sb, ".%d=%s", k, r.fields[i][k])
+			}
+		}
+		sb.WriteString("|")
+	}
+	return sb.String()
+}
+
+type c20Frames struct {
+	w      *World
+	expand map[*ssa.Call]bool                                            // helper calls that are interpreted
+	base   func(in ssa.Instruction, env map[ssa.Value]AVal) (AVal, bool) // the scenario inputs
+	over   bool
+	paths  int
+	stack  map[*ssa.Function]bool
+}
+
+func c20StructOf(t types.Type) (*types.Struct, bool) {
+	switch tt := t.Underlying().(type) {
+	case *types.Struct:
+		return tt, false
+	case *types.Pointer:
+		if s, ok := tt.Elem().Underlying().(*types.Struct); ok {
+			return s, true
+		}
+	}
+	return nil, false
+}
+
+func c20IsBoolType(t types.Type) bool {
+	b, ok := t.Underlying().(*types.Basic)
+	return ok && b.Kind() == types.Bool
+}
+
+// c20LoadOnly: the address is used for loads only.
+func c20LoadOnly(addr ssa.Value) bool {
+	if addr.Referrers() == nil {
+		return true
+	}
+	for _, r := range *addr.Referrers() {
+		switch x := r.(type) {
+		case *ssa.UnOp:
+			if x.Op != token.MUL {
+				return false
+			}
+		case *ssa.DebugRef:
+		default:
+			return false
+		}
+	}
+	return true
+}
+
+// c20OwnStruct: al is a struct object of its function that is touched only field by field (stores to and loads from
+// its fields), loaded as a whole, or returned: every change of a field is a store the interpreter sees.
+func c20OwnStruct(al *ssa.Alloc) bool {
+	if st, _ := c20StructOf(al.Type()); st == nil || al.Referrers() == nil {
+		return false
+	}
+	for _, r := range *al.Referrers() {
+		switch x := r.(type) {
+		case *ssa.FieldAddr:
+			if x.Referrers() == nil {
+				continue
+			}
+			for _, rr := range *x.Referrers() {
+				switch y := rr.(type) {
+				case *ssa.Store:
+					if y.Addr != ssa.Value(x) || y.Val == ssa.Value(x) {
+						return false
+					}
+				case *ssa.UnOp:
+					if y.Op != token.MUL {
+						return false
+					}
+				case *ssa.DebugRef:
+				default:
+					return false
+				}
+			}
+		case *ssa.UnOp:
+			if x.Op != token.MUL {
+				return false
+			}
+		case *ssa.Return, *ssa.DebugRef:
+		default:
+			return false
+		}
+	}
+	return true
+}
+
+func c20Dominates(a, b ssa.Instruction) bool {
+	if a.Block() == b.Block() {
+		return instrIndex(a) < instrIndex(b)
+	}
+	return a.Block().Dominates(b.Block())
+}
+
+// c20HeldResult: base (the operand of a field address that `at` loads through) is result idx of a call: the result
+// itself (a pointer), or a local whose only assignment is that result, made before the load, and whose fields are
+// only read afterwards.
+func c20HeldResult(base ssa.Value, at ssa.Instruction) (*ssa.Call, int, bool) {
+	asResult := func(v ssa.Value) (*ssa.Call, int, bool) {
+		switch x := v.(type) {
+		case *ssa.Extract:
+			if call, ok := x.Tuple.(*ssa.Call); ok {
+				return call, x.Index, true
+			}
+		case *ssa.Call:
+			if _, isTuple := x.Type().(*types.Tuple); !isTuple {
+				return x, 0, true
+			}
+		}
+		return nil, 0, false
+	}
+	if call, idx, ok := asResult(base); ok {
+		// a pointer result: nobody but this function holds it, and this function only reads its fields
+		if base.Referrers() != nil {
+			for _, r := range *base.Referrers() {
+				switch x := r.(type) {
+				case *ssa.FieldAddr:
+					if !c20LoadOnly(x) {
+						return nil, 0, false
+					}
+				case *ssa.BinOp, *ssa.DebugRef:
+				default:
+					return nil, 0, false
+				}
+			}
+		}
+		return call, idx, true
+	}
+	al, ok := base.(*ssa.Alloc)
+	if !ok || al.Referrers() == nil {
+		return nil, 0, false
+	}
+	var st *ssa.Store
+	for _, r := range *al.Referrers() {
+		switch x := r.(type) {
+		case *ssa.Store:
+			if x.Addr != ssa.Value(al) || st != nil {
+				return nil, 0, false
+			}
+			st = x
+		case *ssa.FieldAddr:
+			if !c20LoadOnly(x) {
+				return nil, 0, false
+			}
+		case *ssa.UnOp:
+			if x.Op != token.MUL {
+				return nil, 0, false
+			}
+		case *ssa.DebugRef:
+		default:
+			return nil, 0, false
+		}
+	}
+	if st == nil || !c20Dominates(st, at) {
+		return nil, 0, false
+	}
+	return asResult(st.Val)
+}
+
+func c20InCycle(b *ssa.BasicBlock) bool {
+	seen := map[*ssa.BasicBlock]bool{}
+	stack := append([]*ssa.BasicBlock(nil), b.Succs...)
+	for len(stack) > 0 {
+		x := stack[len(stack)-1]
+		stack = stack[:len(stack)-1]
+		if x == b {
+			return true
+		}
+		if seen[x] {
+			continue
+		}
+		seen[x] = true
+		stack = append(stack, x.Succs...)
+	}
+	return false
+}
+
+// expandedIn: the interpreted helper calls of fn (a call inside a loop is not interpreted: its results stay unknown).
+func (fr *c20Frames) expandedIn(fn *ssa.Function) []*ssa.Call {
+	var out []*ssa.Call
+	for _, ci := range allCalls(fn) {
+		if cc, ok := ci.(*ssa.Call); ok && fr.expand[cc] && !c20InCycle(cc.Block()) {
+			out = append(out, cc)
+		}
+	}
+	return out
+}
+
+// hook: the scenario inputs, the results of the interpreted helper calls under the chosen outcomes, and the zero
+// value of the bool fields of a struct object at its allocation.
+func (fr *c20Frames) hook(ipp **Interp, choice map[*ssa.Call]*c20Res) func(in ssa.Instruction, env map[ssa.Value]AVal) (AVal, bool) {
+	return func(in ssa.Instruction, env map[ssa.Value]AVal) (AVal, bool) {
+		if a, ok := fr.base(in, env); ok {
+			return a, true
+		}
+		switch x := in.(type) {
+		case *ssa.Alloc:
+			if env != nil && c20OwnStruct(x) {
+				st, _ := c20StructOf(x.Type())
+				for _, r := range *x.Referrers() {
+					if fa, ok := r.(*ssa.FieldAddr); ok && fa.Field < st.NumFields() && c20IsBoolType(st.Field(fa.Field).Type()) {
+						if rep := (*ipp).memRep(fa); rep != nil {
+							env[rep] = AVal{Kind: aBool, B: false}
+						}
+					}
+				}
+				return AVal{Kind: aNonNil}, true
+			}
+		case *ssa.Call:
+			if r := choice[x]; r != nil && len(r.vals) == 1 {
+				return r.vals[0], true
+			}
+		case *ssa.Extract:
+			if call, ok := x.Tuple.(*ssa.Call); ok {
+				if r := choice[call]; r != nil && x.Index < len(r.vals) {
+					return r.vals[x.Index], true
+				}
+			}
+		case *ssa.UnOp:
+			if x.Op != token.MUL {
+				break
+			}
+			if fa, ok := x.X.(*ssa.FieldAddr); ok {
+				if call, idx, ok := c20HeldResult(fa.X, x); ok {
+					if r := choice[call]; r != nil && idx < len(r.fields) && r.fields[idx] != nil {
+						if a, ok := r.fields[idx][fa.Field]; ok {
+							return a, true
+						}
+					}
+				}
+			}
+		}
+		return AVal{}, false
+	}
+}
+
+// resOf: the abstract results at a return of a helper.
+func (fr *c20Frames) resOf(H *ssa.Function, ip *Interp, o Outcome) *c20Res {
+	hi := fr.w.Info(H)
+	ret := o.Ret
+	r := &c20Res{vals: make([]AVal, len(ret.Results)), fields: make([]map[int]AVal, len(ret.Results))}
+	for k, v := range ret.Results {
+		a := ip.val(v, o.Env)
+		if isErrorType(v.Type()) && a.Kind != aNil && a.Kind != aNonNil {
+			a = top
+			if hi.nonNil(v, ret.Block()) {
+				a = AVal{Kind: aNonNil}
+			}
+		}
+		r.vals[k] = a
+		st, isPtr := c20StructOf(v.Type())
+		if st == nil {
+			continue
+		}
+		r.vals[k] = top
+		fields := map[int]AVal{}
+		var al *ssa.Alloc
+		switch x := v.(type) {
+		case *ssa.Const:
+			if !isPtr {
+				// the zero value of the struct type
+				for i := 0; i < st.NumFields(); i++ {
+					if c20IsBoolType(st.Field(i).Type()) {
+						fields[i] = AVal{Kind: aBool, B: false}
+					}
+				}
+			} else {
+				r.vals[k] = AVal{Kind: aNil}
+			}
+		case *ssa.UnOp:
+			// the object is copied out right before the return
+			if x.Op == token.MUL && !isPtr && x.Block() == ret.Block() {
+				clean := true
+				for _, in := range ret.Block().Instrs[instrIndex(x):] {
+					if _, isStore := in.(*ssa.Store); isStore {
+						clean = false
+					}
+				}
+				if a, ok := x.X.(*ssa.Alloc); ok && clean {
+					al = a
+				}
+			}
+		case *ssa.Alloc:
+			if isPtr {
+				al = x
+				r.vals[k] = AVal{Kind: aNonNil}
+			}
+		}
+		if al != nil && c20OwnStruct(al) {
+			for i := 0; i < st.NumFields(); i++ {
+				if !c20IsBoolType(st.Field(i).Type()) {
+					continue
+				}
+				var fa *ssa.FieldAddr
+				for _, ref := range *al.Referrers() {
+					if x, ok := ref.(*ssa.FieldAddr); ok && x.Field == i && fa == nil {
+						fa = x
+					}
+				}
+				if fa == nil {
+					fields[i] = AVal{Kind: aBool, B: false} // never assigned: the zero value
+				} else if rep := ip.memRep(fa); rep != nil {
+					if a, ok := o.Env[rep]; ok && a.Kind == aBool {
+						fields[i] = a
+					}
+				}
+			}
+		}
+		r.fields[k] = fields
+	}
+	return r
+}
+
+// choices enumerates the combinations of outcomes of the interpreted helper calls of fn.
+func (fr *c20Frames) choices(fn *ssa.Function, depth int, f func(choice map[*ssa.Call]*c20Res)) {
+	calls := fr.expandedIn(fn)
+	choice := map[*ssa.Call]*c20Res{}
+	var rec func(i int)
+	rec = func(i int) {
+		if i == len(calls) {
+			f(choice)
+			return
+		}
+		for _, o := range fr.outcomes(calls[i], depth+1) {
+			choice[calls[i]] = o
+			rec(i + 1)
+		}
+		delete(choice, calls[i])
+	}
+	rec(0)
+}
+
+// outcomes: the abstract outcomes of one helper call under the current scenario.
+func (fr *c20Frames) outcomes(call *ssa.Call, depth int) []*c20Res {
+	H := staticCallee(call)
+	nres := H.Signature.Results().Len()
+	unknown := func() []*c20Res {
+		r := &c20Res{vals: make([]AVal, nres), fields: make([]map[int]AVal, nres)}
+		return fr.split(H, []*c20Res{r})
+	}
+	if depth > 4 || fr.stack[H] {
+		return unknown()
+	}
+	// the interpreter follows a loop once; a helper with a loop is not interpreted (its results stay unknown)
+	for _, b := range H.Blocks {
+		if c20InCycle(b) {
+			return unknown()
+		}
+	}
+	if fr.stack == nil {
+		fr.stack = map[*ssa.Function]bool{}
+	}
+	fr.stack[H] = true
+	defer delete(fr.stack, H)
+	// parameters: what the scenario says about the arguments (the overwrite flag handed down as a bool)
+	env0 := map[ssa.Value]AVal{}
+	for i, p := range H.Params {
+		if i >= len(call.Call.Args) {
+			break
+		}
+		switch a := call.Call.Args[i].(type) {
+		case *ssa.Const:
+			env0[p] = (&Interp{IntTypes: map[string]bool{"*": true}}).constVal(a)
+		case ssa.Instruction:
+			if _, isPhi := a.(*ssa.Phi); !isPhi {
+				if v, ok := fr.base(a, nil); ok {
+					env0[p] = v
+				}
+			}
+		}
+	}
+	var outs []*c20Res
+	seen := map[string]bool{}
+	fr.choices(H, depth, func(choice map[*ssa.Call]*c20Res) {
+		var ip *Interp
+		ip = &Interp{Fn: H, IntTypes: map[string]bool{"*": true}}
+		ip.Hook = fr.hook(&ip, choice)
+		for _, o := range ip.Run(H.Blocks[0], nil, env0, nil, nil) {
+			fr.paths++
+			if o.Ret == nil {
+				continue // a panic: the call does not return
+			}
+			for _, r := range fr.split(H, []*c20Res{fr.resOf(H, ip, o)}) {
+				if k := r.key(); !seen[k] {
+					seen[k] = true
+					outs = append(outs, r)
+				}
+			}
+		}
+		if ip.Overflow {
+			fr.over = true
+		}
+	})
+	if len(outs) == 0 {
+		return unknown()
+	}
+	return outs
+}
+
+// split: an error result that stayed undecided stands for nil and for non-nil.
+func (fr *c20Frames) split(H *ssa.Function, in []*c20Res) []*c20Res {
+	sig := H.Signature.Results()
+	for k := 0; k < sig.Len(); k++ {
+		if !isErrorType(sig.At(k).Type()) {
+			continue
+		}
+		var next []*c20Res
+		for _, r := range in {
+			if r.vals[k].Kind == aNil || r.vals[k].Kind == aNonNil {
+				next = append(next, r)
+				continue
+			}
+			for _, kind := range []int{aNil, aNonNil} {
+				c := &c20Res{vals: append([]AVal(nil), r.vals...), fields: r.fields}
+				c.vals[k] = AVal{Kind: kind}
+				next = append(next, c)
+			}
+		}
+		in = next
+	}
+	return in
+}
+
+// c20IsResult: v is result k of the call (possibly converted between interface types).
+func c20IsResult(v ssa.Value, call *ssa.Call, k int) bool {
+	for {
+		switch x := v.(type) {
+		case *ssa.ChangeInterface:
+			v = x.X
+			continue
+		case *ssa.ChangeType:
+			v = x.X
+			continue
+		case *ssa.Extract:
+			return x.Tuple == ssa.Value(call) && x.Index == k
+		}
+		return false
+	}
+}
+
+// c20DescInRoot: the printed form of v (a value of the function that holds the call `at`) in the frame of root: along the
+// chain of calls from root to that function, every parameter of a helper is replaced by the printed form of what the
+// call of the helper passes for it. Without a single chain the form of the innermost frame is returned unchanged.
+func c20DescInRoot(w *World, root *ssa.Function, at *ssa.Call, v ssa.Value) string {
+	d := desc(v)
+	if at.Parent() == root {
+		return d
+	}
+	found := c20FindCalls(w, root, func(cc *ssa.Call) bool { return cc == at })
+	if len(found) != 1 {
+		return d
+	}
+	via := found[0].via
+	for i := len(via) - 1; i >= 0; i-- {
+		H := staticCallee(via[i])
+		var names, descs []string
+		for j, p := range H.Params {
+			if j < len(via[i].Call.Args) {
+				names = append(names, p.Name())
+				descs = append(descs, desc(via[i].Call.Args[j]))
+			}
+		}
+		d = substParams(d, names, descs)
+	}
+	return d
+}
